@@ -21,7 +21,7 @@ type RuleSpec struct {
 
 var MetricNames = []string{"up", "foo", "bar", "http_requests_total", "node_cpu_seconds_total", "job:foo:rate5m"}
 var LabelNames = []string{"job", "instance", "env", "cluster", "severity"}
-var AlertNames = []string{"HighErrors", "Down", "Foo_Alert", "DiskFull"}
+var AlertNames = []string{"HighErrors", "Down", "Foo_Alert", "DiskFull", "Down_Extra"}
 var RecordNames = []string{"job:foo:rate5m", "job:up:sum", "instance:bar:avg", "foo:sum"}
 
 // Exprs: mostly valid PromQL, some of which trigger offline checks, a few invalid.
